@@ -25,10 +25,12 @@ import (
 )
 
 type reqSpec struct {
-	ID       string `json:"id"`
-	AtMs     int64  `json:"at_ms"` // call instant relative to case start (start is window-aligned + 0)
-	Priority int    `json:"priority"`
-	TTLMs    int64  `json:"ttl_ms"`
+	ID   string `json:"id"`
+	AtMs int64  `json:"at_ms"` // call instant relative to case start (start is window-aligned + 0)
+	// SubUs: microseconds past AtMs (arrivals of a burst fall into one millisecond but not onto one instant)
+	SubUs    int64 `json:"sub_us,omitempty"`
+	Priority int   `json:"priority"`
+	TTLMs    int64 `json:"ttl_ms"`
 	// Hold: park the enqueuer at the yield point and release it after this many rollovers (0 = no hold)
 	Hold int `json:"hold_rollovers,omitempty"`
 	// BeforeRollover: the rollover that is due at the window boundary just before this arrival has not run
@@ -60,7 +62,27 @@ type replay struct {
 
 var t0 = time.Unix(1_772_366_400, 0) // aligned to every window size used
 
+// genBurst: the window's quota is used up, then 3-5 requests of ONE priority arrive within one millisecond
+// (100 us apart); they are released one per window, in the order they came.
+func genBurst(r *sim.Rand) scenario {
+	s := scenario{Quota: 1, WindowS: int64(r.Range(1, 2)), Size: 6}
+	w := s.WindowS * 1000
+	at := int64(r.Range(50, 300))
+	prio := r.Intn(3)
+	s.Reqs = append(s.Reqs, reqSpec{ID: "r0", AtMs: at, Priority: prio, TTLMs: 20*w + 131})
+	at += int64(r.Range(20, 200))
+	n := r.Range(3, 5)
+	for i := 1; i <= n; i++ {
+		s.Reqs = append(s.Reqs, reqSpec{ID: fmt.Sprintf("r%d", i), AtMs: at, SubUs: int64(i) * 100, Priority: prio, TTLMs: 20*w + 131 + int64(i)*7})
+	}
+	s.EndMs = at + int64(n+3)*w
+	return s
+}
+
 func genScenario(r *sim.Rand) scenario {
+	if r.Chance(1, 8) {
+		return genBurst(r)
+	}
 	s := scenario{Quota: int64(r.Range(1, 2)), WindowS: int64(r.Range(1, 2)), Size: int64(r.Range(1, 3))}
 	w := s.WindowS * 1000
 	n := r.Range(2, 7)
@@ -403,7 +425,9 @@ func runCase(idx int, args sim.Args, scn scenario, v *sim.Verdict) {
 		reqs[i] = &scn.Reqs[i]
 		ttlOf[time.Duration(scn.Reqs[i].TTLMs)*time.Millisecond] = reqs[i]
 	}
-	sort.SliceStable(reqs, func(i, j int) bool { return reqs[i].AtMs < reqs[j].AtMs })
+	sort.SliceStable(reqs, func(i, j int) bool {
+		return reqs[i].AtMs < reqs[j].AtMs || (reqs[i].AtMs == reqs[j].AtMs && reqs[i].SubUs < reqs[j].SubUs)
+	})
 
 	for _, q := range reqs {
 		if q.BeforeRollover {
@@ -415,7 +439,7 @@ func runCase(idx int, args sim.Args, scn scenario, v *sim.Verdict) {
 			skipRollover = true
 			v.Count("arrivals_before_a_late_rollover", 1)
 		}
-		if !advance(t0.Add(time.Duration(q.AtMs) * time.Millisecond)) {
+		if !advance(t0.Add(time.Duration(q.AtMs)*time.Millisecond + time.Duration(q.SubUs)*time.Microsecond)) {
 			return
 		}
 		skipRollover = false // the late rollover is the first timer the next advance fires (at this instant)
@@ -576,7 +600,7 @@ func judge(idx int, scn scenario, rp replay, v *sim.Verdict) {
 				if o.ExpMs != 0 && o.ExpMs <= q.DoneMs {
 					continue
 				}
-				better := o.Priority < q.Priority || (o.Priority == q.Priority && o.AtMs < q.AtMs)
+				better := o.Priority < q.Priority || (o.Priority == q.Priority && (o.AtMs < q.AtMs || (o.AtMs == q.AtMs && o.SubUs < q.SubUs)))
 				if better {
 					kind := "priority"
 					if o.Priority == q.Priority {
